@@ -356,6 +356,7 @@ def gen_circuit(rng, radixes, nops, depth=0, edits=True):
     n = len(radixes)
     c = Circuit(n, radixes)
     log = []
+    errors = []
     for _ in range(nops):
         a = min(n, rng.choice([1, 1, 2, 2, 2, 3]))
         loc = rng.sample(range(n), a)
@@ -375,31 +376,39 @@ def gen_circuit(rng, radixes, nops, depth=0, edits=True):
             cy, q, op = rng.choice(pts)
             kind = rng.choice(['pop', 'replace_same', 'replace_other',
                                'insert', 'freeze'])
-            if kind == 'pop' and len(pts) > 1:
-                c.pop((cy, q))
-            elif kind == 'replace_same':
-                loc = list(op.location)
-                rng.shuffle(loc)
-                gate, params = gen_gate(rng, [radixes[x] for x in loc], depth)
-                c.replace_gate((cy, q), gate, loc, params)
-            elif kind == 'replace_other':
-                others = [x for x in range(n) if x != q]
-                k = min(len(others), rng.choice([0, 1, 2]))
-                loc = [q] + rng.sample(others, k)
-                rng.shuffle(loc)
-                gate, params = gen_gate(rng, [radixes[x] for x in loc], depth)
-                c.replace_gate((cy, q), gate, loc, params)
-            elif kind == 'insert':
-                a = min(n, rng.choice([1, 2, 3]))
-                loc = rng.sample(range(n), a)
-                gate, params = gen_gate(rng, [radixes[x] for x in loc], depth)
-                c.insert_gate(rng.randrange(0, c.num_cycles + 1), gate, loc,
-                              params)
-            elif kind == 'freeze' and c.num_params > 0:
-                c.freeze_param(rng.randrange(c.num_params))
-            else:
-                continue
+            try:
+                if kind == 'pop' and len(pts) > 1:
+                    c.pop((cy, q))
+                elif kind == 'replace_same':
+                    loc = list(op.location)
+                    rng.shuffle(loc)
+                    gate, params = gen_gate(rng, [radixes[x] for x in loc],
+                                            depth)
+                    c.replace_gate((cy, q), gate, loc, params)
+                elif kind == 'replace_other':
+                    others = [x for x in range(n) if x != q]
+                    k = min(len(others), rng.choice([0, 1, 2]))
+                    loc = [q] + rng.sample(others, k)
+                    rng.shuffle(loc)
+                    gate, params = gen_gate(rng, [radixes[x] for x in loc],
+                                            depth)
+                    c.replace_gate((cy, q), gate, loc, params)
+                elif kind == 'insert':
+                    a = min(n, rng.choice([1, 2, 3]))
+                    loc = rng.sample(range(n), a)
+                    gate, params = gen_gate(rng, [radixes[x] for x in loc],
+                                            depth)
+                    c.insert_gate(rng.randrange(0, c.num_cycles + 1), gate,
+                                  loc, params)
+                elif kind == 'freeze' and c.num_params > 0:
+                    c.freeze_param(rng.randrange(c.num_params))
+                else:
+                    continue
+            except Exception as e:       # noqa: BLE001 - reported by the case
+                errors.append(f'{kind}:{err_name(e)}')
+                break
             log.append(kind)
+    c._c06_errors = errors
     c._c06_log = log
     return c
 
@@ -753,6 +762,7 @@ def circuit_case(rng, key, max_dim, lean_dim, grad_dim, do_fd,
         c = gen_circuit(rng, rad, rng.randrange(4, 30))
         case = Case(key, describe_circuit(c))
         case.structural = True
+        report_edit_errors(case, c)
         case.bump('structural')
         cid = case.em.emit_circuit(c)
         ops_iter = list(c.operations_with_cycles())
@@ -772,6 +782,7 @@ def circuit_case(rng, key, max_dim, lean_dim, grad_dim, do_fd,
     nops = rng.randrange(1, 13 if dim <= 64 else 8)
     c = gen_circuit(rng, rad, nops)
     case = Case(key, describe_circuit(c))
+    report_edit_errors(case, c)
     case.bump('dim<=%d' % (1 << max(1, math.ceil(math.log2(dim)))))
     for h in c._c06_log:
         case.bump('hist_' + h)
@@ -945,6 +956,12 @@ def circuit_case(rng, key, max_dim, lean_dim, grad_dim, do_fd,
     # --- restricted iteration
     iteration_queries(rng, case, c, cid, with_lean)
     return case
+
+
+def report_edit_errors(case, c):
+    for e in getattr(c, '_c06_errors', []):
+        case.problem('edit-raises:' + e, 'a valid edit of the generated '
+                     f'circuit raised: {e}', True)
 
 
 def verdict(case, name, impl, oracle):
@@ -1326,21 +1343,35 @@ def run_chunk(args):
     rng = random.Random((seed * 7919 + chunk) * 104729 + 6)
     np.random.seed((seed * 7919 + chunk) % (2 ** 31))
     cases = []
+
+    def guarded(key, f):
+        import traceback
+        try:
+            cases.append(f())
+        except InfraError:
+            raise
+        except Exception as e:           # noqa: BLE001
+            cs = Case(key, {'crashed': True})
+            cs.problem('case-raises:' + err_name(e),
+                       'the implementation raised on a generated valid case: '
+                       + traceback.format_exc()[-900:], True)
+            cases.append(cs)
     for i in range(n_build):
-        cases.append(builder_case(rng, (tier, seed, chunk, 'b', i),
-                                  cfg['build_dim']))
+        guarded((tier, seed, chunk, 'b', i), lambda: builder_case(
+            rng, (tier, seed, chunk, 'b', i), cfg['build_dim']))
     for i in range(n_circ):
         x = rng.random()
         md = cfg['max_dim'] if x < cfg['big_frac'] else (
             cfg['mid_dim'] if x < cfg['big_frac'] + cfg['mid_frac']
             else cfg['small_dim'])
-        cases.append(circuit_case(
+        guarded((tier, seed, chunk, 'c', i), lambda: circuit_case(
             rng, (tier, seed, chunk, 'c', i), md, cfg['lean_dim'],
             cfg['grad_dim'], cfg['fd'], cfg['lean_grad_dim'],
             cfg['embedprod_dim']))
     for i in range(cfg.get('n_struct', 0)):
-        cases.append(circuit_case(rng, (tier, seed, chunk, 's', i), 0, 0, 0,
-                                  False, structural=True))
+        guarded((tier, seed, chunk, 's', i), lambda: circuit_case(
+            rng, (tier, seed, chunk, 's', i), 0, 0, 0, False,
+            structural=True))
     # one driver run for the whole chunk
     lines = []
     spans = []
@@ -1403,6 +1434,11 @@ def run(ck: Check):
     if not proofs_ok:
         ck.violation('lean-obligations', 'Props/C06.lean does not check: '
                      + (ck.proof_failure or '')[-1500:], {}, False)
+    replay = None
+    if ck.replay_path:
+        import json
+        replay = json.loads(open(ck.replay_path).read())
+        ck.tier = replay.get('tier', ck.tier)
     quick = ck.tier != 'thorough'
     cfg = dict(small_dim=32, mid_dim=64, max_dim=256, mid_frac=.22,
                big_frac=.05, lean_dim=128, grad_dim=64, lean_grad_dim=32,
@@ -1413,6 +1449,23 @@ def run(ck: Check):
     nchunks = 48 if quick else 640
     n_circ = 8 if quick else 30
     n_build = 3 if quick else 6
+    if replay is not None:
+        # re-generate exactly the chunk of the recorded case (deterministic)
+        key = (replay.get('replay') or {}).get('case')
+        fixed_cases(ck)
+        if key:
+            res, _ = run_chunk((key[0], int(key[1]), int(key[2]), n_circ,
+                                n_build, cfg))
+            for r in res:
+                if list(r['key']) != list(key):
+                    continue
+                ck.count(('replay', repr(r['desc'])))
+                for sig, what, found in r['problems']:
+                    ck.violation(sig, what, {
+                        'case': r['key'], 'generator': GEN_VERSION,
+                        'desc': r['desc'], 'driver_lines': r['lines']}, found)
+        ck.coverage['rule'] = 'replay of ' + str(ck.replay_path)
+        return
     fixed_cases(ck)
     jobs = [(ck.tier, ck.seed, i, n_circ, n_build, cfg)
             for i in range(nchunks)]
